@@ -18,7 +18,7 @@ import (
 var (
 	KeyPool   = []string{"a", "b", "c", "d", "0", "1", "-1", "x/y", "m~n", "~1", "é", "k k", "-", "<&>", "a/b~c", "e f", "%d", "b\\s", "ab", "k\\", "\ufffdz"}
 	PlainKeys = []string{"a", "b", "c", "d", "e", "f", "k0", "k1"}
-	NumPool   = []string{"0", "1", "-1", "2", "10", "1.0", "1.5", "-0", "1e2", "1E400", "12345678901234567890123", "0.1", "-2.50", "1e-7", "100000000000000000000", "0.30000000000000004", "2E+2", "9007199254740992", "9007199254740993", "1700000000", "1700000001"}
+	NumPool   = []string{"0", "1", "-1", "2", "10", "1.0", "1.5", "-0", "1e2", "1E400", "12345678901234567890123", "0.1", "-2.50", "1e-7", "100000000000000000000", "0.30000000000000004", "2E+2", "9007199254740992", "9007199254740993", "1700000000", "1700000001", "1E-07", "2.50e+05", "-3e00", "0e0", "0E+0"}
 	StrPool   = []string{"", "a", "b", "x y", "é", "<&>", "q\"uote", "back\\slash", "line\nfeed", "😀", " ", "tab\there", "</script>", "a&b", "u v w", "\u0001ctl", "/", "~", "25% off %s", "%!v(x)", "cr\rlf", "C:\\", "\U0001F3FF", "\U00010000\U0010FFFF"}
 )
 
@@ -645,6 +645,12 @@ func (g *OpGen) Seq(t *rapid.T, doc *ref.V, o ref.Opts, minOps, maxOps, tail int
 	failed := false
 	for i := 0; i < n; i++ {
 		op := g.Next(t, st.Root, i)
+		if len(ops) > 0 && !failed && OneIn(t, 12, "again") {
+			// an earlier operation once more, verbatim (a test that passed before may fail now, a
+			// copy or add repeats): anything remembered about an operation by its text is stale
+			op = ops[Uniform(t, 0, len(ops)-1, "againi")]
+			op.Value = op.Value.Clone()
+		}
 		ops = append(ops, op)
 		if failed {
 			tail--
